@@ -27,8 +27,13 @@ class GeckoUnhandledProtocolHandler(GeckoUdpProtocolHandler):
             if protocol.queue.head is not None:
                 # First time we see this, we mark the queue
                 protocol.queue.mark()
-                # Allow the rest of the tasks to operate
-                await asyncio.sleep(GeckoConstants.ASYNCIO_SLEEP_TIMEOUT_FOR_YIELD)
+                # Allow the rest of the tasks to operate. One polling interval
+                # is not enough, a consumer that wakes at the same moment as
+                # this task may not have had its turn yet
+                for _ in range(3):
+                    await asyncio.sleep(GeckoConstants.ASYNCIO_SLEEP_TIMEOUT_FOR_YIELD)
+                    if not protocol.queue.is_marked:
+                        break
                 # If we get here then no one processed the datagram
                 # so we can remove it and moan about it
                 if protocol.queue.is_marked:
